@@ -11,23 +11,13 @@ TYPES = ORACLES["TypesOracle"]
 THEORY = "pysmt.oracles.TheoryOracle"
 
 EXPLANATION = (
-    "Static analysis of pysmt/oracles.py: exhaustive dispatch of the five oracles (R1); the transfer "
-    "five oracles (six size measures), interpreted on 85 operator skeletons with binders, shadowing, "
-    "Boolean terms inside theory terms and shared sub-terms, equal independent structural reference "
-    "definitions (R2, abstract interpreter); every operator that carries a sort in its payload contributes it to the sort "
-    "analysis, cross-checked against TheoryOracle (R3).")
-NOT_DECIDED = ["nothing beyond the structural definitions: semantic dependence follows from R2"]
-
-# operator -> accessor through which its payload sort(s) are reachable
-PAYLOAD_SORT = {
-    "SYMBOL": ["symbol_type"],
-    "FUNCTION": ["function_name"],
-    "FORALL": ["quantifier_vars"], "EXISTS": ["quantifier_vars"],
-    "ARRAY_VALUE": ["array_value_index_type", "get_type"],
-    "BOOL_CONSTANT": ["constant_type"], "INT_CONSTANT": ["constant_type"], "REAL_CONSTANT": ["constant_type"],
-    "BV_CONSTANT": ["constant_type", "bv_width"], "STR_CONSTANT": ["constant_type"],
-    "ALGEBRAIC_CONSTANT": ["constant_type"],
-}
+    "Abstract interpretation of pysmt/oracles.py: FreeVarsOracle, AtomsOracle, QuantifierOracle, TypesOracle and "
+    "SizeOracle with its six measures are interpreted from source on ~85 operator skeletons - every operator "
+    "family, binders and shadowing, Boolean terms inside theory terms, shared sub-terms, sorts that occur only in "
+    "a payload (bound-variable lists, constant-array index sorts, inner function signatures) - and the answers "
+    "equal independent structural reference definitions computed on the skeleton (R2).  Exhaustive dispatch of "
+    "the four table-driven oracles over the operator universe, by resolution of their handler tables (R1).")
+NOT_DECIDED = ["skeletons outside the menu (the thorough tier places every skeleton in further contexts)"]
 
 
 def run(ctx):
@@ -38,39 +28,11 @@ def run(ctx):
         rs = ctx.rule("R1", "exhaustive dispatch of the five oracles")
         for nm, q in sorted(ORACLES.items()):
             if nm == "SizeOracle":
-                # SizeOracle installs its handlers per call: set_function(measure_fun, *ALL_TYPES)
-                cls, f = repo.method(q, "set_walking_measure")
-                if "self.set_function(self.measure_to_fun[measure], *op.ALL_TYPES)" in norm(f):
-                    rs.ok({"class": nm, "dispatch": "measure function installed for op.ALL_TYPES"})
-                else:
-                    rs.unrec("SizeOracle.set_walking_measure shape")
+                # SizeOracle installs its handlers per call (set_walking_measure): no static table; its six
+                # measures are interpreted on every skeleton by R2
                 continue
             dispatch_rule(ctx, rs, q)
         ctx.floor(rs, 260)
-
-    if ctx.want("R3"):
-        rs = ctx.rule("R3", "operators carrying a sort in their payload contribute it")
-        tab = ht.table(TYPES)
-        ttab = ht.table(THEORY)
-        for opn, accs in sorted(PAYLOAD_SORT.items()):
-            o = ops.id(opn)
-            h = tab[o]
-            if h.is_error or h.func is None:
-                continue
-            used = set(attr_tail(c) for c in calls_in(h.func))
-            th = ttab[o]
-            tused = set(attr_tail(c) for c in calls_in(th.func)) if th.func is not None else set()
-            if used & set(accs):
-                rs.ok({"op": opn, "handler": h.name, "reads": sorted(used & set(accs))})
-            else:
-                cross = sorted(tused & set(accs))
-                ctx.finding(rs, "%s|%s|payload-sort-dropped" % (TYPES, opn),
-                            "TypesOracle handles %s with %s, which never reads the sort carried in the node's payload "
-                            "(%s)%s: a custom sort that occurs only there is not reported, so it is never declared"
-                            % (opn, h.name, "/".join(accs),
-                               "; TheoryOracle does read %s for the same operator" % cross if cross else ""),
-                            method_loc(repo, h.cls, h.func))
-        ctx.floor(rs, 8)
 
     from . import c12_deep
     c12_deep.run(ctx)
